@@ -33,6 +33,20 @@ Theorem C10_holder_is_lookup : forall acts ls n a,
   exists x, nth_error (actors s) a = Some x /\ named x n = true /\ holds_name (a_pc x) = true.
 Proof. intros acts ls n a s. apply held_iff. apply reach_inv. Qed.
 
+(* of any set of concurrent spawns with the same name exactly one succeeds and the others
+   fail: in any reachable state in which nobody named n has released the name yet, if at
+   least one spawn under n has reached the registry then there is a winner w, where_is n
+   returns w, and every other spawn under n that has reached the registry has failed
+   (ActorAlreadyRegistered) — for every interleaving and any number of spawns *)
+Theorem C10_exactly_one_winner : forall acts ls n,
+  let s := run false ls (init acts) in
+  (forall b y, nth_error (actors s) b = Some y -> named y n = true -> released (a_pc y) = false) ->
+  (exists a x, nth_error (actors s) a = Some x /\ named x n = true /\ a_pc x <> PNew) ->
+  exists w, lookup n (names s) = Some w /\
+    forall a x, nth_error (actors s) a = Some x -> named x n = true -> a_pc x <> PNew -> a <> w ->
+                a_pc x = PFailed.
+Proof. exact exactly_one_winner. Qed.
+
 (* ... a spawn that reaches the registry succeeds iff the name is free; a failing spawn
    (ActorAlreadyRegistered) changes neither table nor any other actor *)
 Theorem C10_spawn_outcome : forall s i x n,
@@ -113,6 +127,13 @@ Check (C10_one_winner : forall acts ls a b x y n,
   nth_error (actors s) a = Some x -> nth_error (actors s) b = Some y ->
   named x n = true -> named y n = true ->
   holds_name (a_pc x) = true -> holds_name (a_pc y) = true -> a = b).
+Check (C10_exactly_one_winner : forall acts ls n,
+  let s := run false ls (init acts) in
+  (forall b y, nth_error (actors s) b = Some y -> named y n = true -> released (a_pc y) = false) ->
+  (exists a x, nth_error (actors s) a = Some x /\ named x n = true /\ a_pc x <> PNew) ->
+  exists w, lookup n (names s) = Some w /\
+    forall a x, nth_error (actors s) a = Some x -> named x n = true -> a_pc x <> PNew -> a <> w ->
+                a_pc x = PFailed).
 Check (C10_refines_map : forall acts ls l k,
   let s := run false ls (init acts) in
   abs (step false s l) k = spec_step (actors s) l (abs s) k).
@@ -170,6 +191,7 @@ Proof. repeat split; vm_compute; reflexivity. Qed.
 Print Assumptions C10_unique.
 Print Assumptions C10_one_winner.
 Print Assumptions C10_holder_is_lookup.
+Print Assumptions C10_exactly_one_winner.
 Print Assumptions C10_spawn_outcome.
 Print Assumptions C10_refines_map.
 Print Assumptions C10_lookup_live.
